@@ -5,8 +5,9 @@
 # usage: selftest/fixes.sh [--save] [commit ...]
 set -u
 cd "$(dirname "$0")/.."
-# under `vp run --with-repo` the job works on its private copy of the repository (VP_RUN_REPO), never on the live /repo
-REPO="${VP_RUN_REPO:-/repo}"
+# never on the live /repo: the job's private snapshot under `vp run --with-repo`, a private clone otherwise
+. selftest/_private_repo.sh
+REPO="$VP_RUN_REPO"
 if [ -n "${VP_RUN_REPO:-}" ]; then sed -i "s#path = \"/repo\"#path = \"$VP_RUN_REPO\"#" sim/Cargo.toml; fi
 SAVE=0; [ "${1:-}" = "--save" ] && { SAVE=1; shift; }
 declare -A OWNER
@@ -16,7 +17,7 @@ while read -r c subj; do
     *sign_with_random_k*) OWNER[$c]=C05 ;;
     *OP_NOTIF*|*SIGHASH_SINGLE*|*"SighashSignature::from_bytes"*|*hashSequence*|*remove_codeseparators*) OWNER[$c]=C15 ;;
     *digest-taking*|*"AES CTR"*|*"TxIn/TxOut readers"*|*"Script::from_bytes rejects"*|*ECIESCiphertext::from_bytes*|*from_wif*|*from_compact_bytes*|*to_decompressed*) OWNER[$c]=C09 ;;
-    *interpreter*|*OP_*|*CHECKSIG*|*conditional*|*Interpreter*|*verify_hashbuf*) OWNER[$c]=C16 ;;
+    *interpreter*|*OP_*|*CHECKSIG*|*CHECKMULTISIG*|*conditional*|*Interpreter*|*verify_hashbuf*) OWNER[$c]=C16 ;;
     *) OWNER[$c]="${FIX_OWNER:-}" ;;
   esac
 done < <(git -C "$REPO" log --format='%h %s' | grep ' fix:' | sed 's/ fix:/ /')
